@@ -76,7 +76,8 @@ def rule_keep(ctx):
               'undo info is kept exactly when block.height >= min_undo_height(daemon height)',
               'undo info is not kept exactly under block.height >= min_undo_height(daemon.cached_height()): ' + why +
               ' - a block inside the window has no undo information (also for blocks indexed during initial sync)', loc=ctx.loc(f, s))
-    okarg = norm(apps[0].args[0]) == '(undo_info, block.height)'
+    a0 = apps[0].args[0]
+    okarg = isinstance(a0, ast.Tuple) and len(a0.elts) == 2 and isinstance(a0.elts[0], ast.Name) and norm(a0.elts[1]) == 'block.height'
     ctx.check(okarg, 'C15.KEEP', ctx.key(f, s, 'queued with its height'), 'queued as (undo_info, block.height)',
               f'not queued with its own height: {norm(apps[0])}', loc=ctx.loc(f, s))
     return 2
@@ -161,7 +162,11 @@ def rule_key(ctx):
     for qual, meth in (('DB.read_undo_info', 'get'), ('DB.flush_undo_infos', None)):
         g = ctx.func('db', qual)
         cs = q.calls_resolving_to(ctx, g, f)
-        okk = len(cs) == 1 and norm(cs[0].args[0]) == 'height'
+        hname = 'height' if 'height' in g.params else None
+        if hname is None:
+            lps = [s for s in g.own_nodes() if isinstance(s, ast.For) and isinstance(s.target, ast.Tuple) and len(s.target.elts) == 2]
+            hname = norm(lps[0].target.elts[1]) if len(lps) == 1 else None
+        okk = len(cs) == 1 and hname is not None and norm(cs[0].args[0]) == hname
         ctx.check(okk, 'C15.ORDERKEY', ctx.key(g, None, 'uses undo_key(height)'), f'{qual} addresses the row through undo_key(height)',
                   f'{qual} does not address the row through undo_key(height)', loc=ctx.loc(g, g.node))
         n += 1
